@@ -1,6 +1,6 @@
 """Family: configurations / fork lookups (C14).  Oracles: spec/Forks.tla and spec/PublishedConstants.tla (TLC).
 
-1. TLC model-checks Forks.tla (all 462 monotone schedules over {0,1,2,3,4,FAR} x epochs 0..5: the chain of
+1. TLC model-checks Forks.tla (all monotone schedules over {0..4,FAR} (462; thorough {0..5,FAR}: 924) x epochs: the chain of
    upgrade_to_X and compute_fork_version name the same fork) and writes the table (schedule, epoch) |-> fork / state
    fork record / which signing versions must verify.
 2. harness/cmd/forks replays every row on zrnt (custom specs scaled by K in {1, 3, 2^33}, the built-in mainnet /
@@ -61,8 +61,19 @@ def classify(m, active):
 
 # ------------------------------------------------------------------ steps
 
-def tlc_table():
-    wd = lib.fresh_spec_copy()
+def forks_params(max_fork_epoch):
+    return ("----------------------------- MODULE ForksParams -----------------------------\n"
+            "MaxForkEpoch == %d\n"
+            "=============================================================================\n") % max_fork_epoch
+
+
+def n_schedules(max_fork_epoch):
+    import math
+    return math.comb(max_fork_epoch + 2 + 6 - 1, 6)      # monotone 6-tuples over max_fork_epoch+2 values
+
+
+def tlc_table(max_fork_epoch=4):
+    wd = lib.fresh_spec_copy({"ForksParams.tla": forks_params(max_fork_epoch)})
     res = lib.tlc("Forks", cfg="Forks.cfg", workdir=wd, workers=4, timeout=600, heap="3g")
     lib.tlc_must_pass(res, "Forks")
     m = re.search(r'"FORKS_TABLE_DONE",\s*(\d+),\s*(\d+)', res.out)
@@ -106,12 +117,14 @@ def check(tier, seed):
     cov = {"states": 0, "transitions": 0, "exhaustive": True, "samples": []}
     violations, known = [], {}
 
-    table, nsched, nrows, res = tlc_table()
+    mfe = 4 if tier == "quick" else 5
+    table, nsched, nrows, res = tlc_table(mfe)
     cov["states"] += res.distinct
     cov["transitions"] += res.generated
     cov["schedules"] = nsched
     cov["table_rows"] = nrows
-    if nsched != 462 or nrows != 462 * 8:
+    cov["max_fork_epoch"] = mfe
+    if nsched != n_schedules(mfe) or nrows != nsched * (mfe + 4):
         raise lib.InfraError("unexpected table size %d schedules / %d rows" % (nsched, nrows))
     rows = lib.read_ndjson(table)
     per_fork = {}
